@@ -89,6 +89,7 @@ func runC10(c *Ctx) {
 	seekAddsOffset(c)
 	// an error answer ends the request: nothing is executed, and no second document is appended, after it (C09)
 	c09StatusVsDispatch(c, nil)
+	c11TerminalFrame(c)
 }
 
 func c10DecodeNil(c *Ctx) {
